@@ -1,5 +1,193 @@
-/- C15 placeholder while the model/correspondence is brought up. -/
+/-
+  C15 — BCJ and delta filters are exact inverses, size-preserving and stable.
+  Only property theorems and non-vacuity examples live here; helper lemmas are in Lemmas/ (word-level facts proved by
+  `bv_decide` are confined to Lemmas/BitWordsBcj*.lean, namespace XzVerif.BitWords).
+
+  Models: Model/Delta.lean, Model/Bcj.lean (ARM, ARM64, PowerPC, SPARC, IA-64, ARM-Thumb), Model/BcjX86.lean,
+  Model/BcjRiscv.lean, Model/Simple.lean (simple_coder.c buffering, one-shot API).
+-/
 import XzVerif.Model.Simple
+import XzVerif.Lemmas.Delta
+import XzVerif.Lemmas.BcjBlocks
+import XzVerif.Lemmas.BitWordsBcj
+import XzVerif.Lemmas.BcjThumb
+
 namespace XzVerif.C15
-theorem placeholder : True := trivial
+open XzVerif.Bcj XzVerif.BitWords
+
+/-! ## Delta -/
+
+/-- The 256-byte circular-history implementation computes `out[i] = in[i] - in[i-d]` (bytes before the start are 0). -/
+theorem delta_impl_eq_spec (d : Nat) (hd1 : 1 ≤ d) (hd2 : d ≤ 256) (x : List UInt8) (i : Nat) (hi : i < x.length) :
+    (Delta.encodeAll d x).getD i 0 = x.getD i 0 - (if d ≤ i then x.getD (i - d) 0 else 0) := by
+  have h := Delta.encode_eq_spec d hd1 hd2 x (Delta.State.init d) [] (Delta.inv_init d) rfl
+  have h2 := Delta.specEnc_getD d hd1 x [] i hi
+  simp only [Delta.encodeAll, h, h2, List.getD_nil]
+
+/-- The decoder computes `out[i] = in[i] + out[i-d]`. -/
+theorem delta_decoder_eq_spec (d : Nat) (hd1 : 1 ≤ d) (hd2 : d ≤ 256) (y : List UInt8) :
+    Delta.decodeAll d y = Delta.specDec d [] y :=
+  Delta.decode_eq_spec d hd1 hd2 y (Delta.State.init d) [] (Delta.inv_init d) rfl
+
+/-- Round trip and size preservation for every distance 1..256 and every byte string. -/
+theorem delta_roundtrip (d : Nat) (hd1 : 1 ≤ d) (hd2 : d ≤ 256) (x : List UInt8) :
+    Delta.decodeAll d (Delta.encodeAll d x) = x ∧ (Delta.encodeAll d x).length = x.length := by
+  have he := Delta.encode_eq_spec d hd1 hd2 x (Delta.State.init d) [] (Delta.inv_init d) rfl
+  have hdec := delta_decoder_eq_spec d hd1 hd2 (Delta.encodeAll d x)
+  simp only [Delta.encodeAll] at hdec ⊢
+  rw [hdec, he]
+  exact ⟨Delta.specDec_specEnc d x [], Delta.specEnc_length d x []⟩
+
+/-- The encoder is also a left inverse of the decoder (the filter is a bijection on byte strings). -/
+theorem delta_roundtrip_rev (d : Nat) (hd1 : 1 ≤ d) (hd2 : d ≤ 256) (y : List UInt8) :
+    Delta.encodeAll d (Delta.decodeAll d y) = y ∧ (Delta.decodeAll d y).length = y.length := by
+  have hd := Delta.decode_eq_spec d hd1 hd2 y (Delta.State.init d) [] (Delta.inv_init d) rfl
+  have he := Delta.encode_eq_spec d hd1 hd2 (Delta.decodeAll d y) (Delta.State.init d) [] (Delta.inv_init d) rfl
+  simp only [Delta.encodeAll, Delta.decodeAll] at he hd ⊢
+  rw [he, hd]
+  exact ⟨Delta.specEnc_specDec d y [], Delta.specDec_length d y []⟩
+
+/-- Slicing independence of the delta loops: processing `a ++ b` = processing `a`, then `b` with the carried state
+    (`copy_and_encode` / `encode_in_place` / `decode_buffer` are called once per `lzma_code` piece). -/
+theorem delta_chunk_stable (s : Delta.State) (a b : List UInt8) :
+    Delta.encode s (a ++ b) = ((Delta.encode (Delta.encode s a).1 b).1, (Delta.encode s a).2 ++ (Delta.encode (Delta.encode s a).1 b).2)
+    ∧ Delta.decode s (a ++ b) = ((Delta.decode (Delta.decode s a).1 b).1, (Delta.decode s a).2 ++ (Delta.decode (Delta.decode s a).1 b).2) :=
+  ⟨Delta.run_append _ a b s, Delta.run_append _ a b s⟩
+
+/-- non-vacuity: distance 2 on a ramp, distance 256 reaching back exactly one history length -/
+example : Delta.encodeAll 2 [1, 2, 3, 4, 5, 6] = [1, 2, 2, 2, 2, 2] := by decide
+example : Delta.decodeAll 2 [1, 2, 2, 2, 2, 2] = [1, 2, 3, 4, 5, 6] := by decide
+example : (Delta.encodeAll 256 (List.replicate 257 7)).getD 256 1 = 0 ∧ (Delta.encodeAll 256 (List.replicate 257 7)).getD 255 1 = 7 := by
+  decide +kernel
+
+/-! ## Fixed-width filters: per-word inverse and class preservation -/
+
+/-- For every 32-bit word and every (aligned) program counter: decoding the encoded word gives the word back, encoding the
+    decoded word too, and the test that selects the instructions to convert gives the same answer before and after
+    (so encoder and decoder convert the same positions).  ARM64 needs no alignment. -/
+theorem bcj_word_inverse (pc v : BitVec 32) (h4 : pc &&& 3#32 = 0#32) :
+    (armWord false pc (armWord true pc v) = v ∧ armWord true pc (armWord false pc v) = v)
+    ∧ (arm64Word false pc (arm64Word true pc v) = v ∧ arm64Word true pc (arm64Word false pc v) = v)
+    ∧ (powerpcWord false pc (powerpcWord true pc v) = v ∧ powerpcWord true pc (powerpcWord false pc v) = v)
+    ∧ (sparcWord false pc (sparcWord true pc v) = v ∧ sparcWord true pc (sparcWord false pc v) = v) :=
+  ⟨⟨arm_dec_enc pc v h4, arm_enc_dec pc v h4⟩, ⟨arm64_dec_enc pc v, arm64_enc_dec pc v⟩,
+   ⟨powerpc_dec_enc pc v h4, powerpc_enc_dec pc v h4⟩, ⟨sparc_dec_enc pc v h4, sparc_enc_dec pc v h4⟩⟩
+
+/-- The instruction class tests are invariant under the transforms (either direction). -/
+theorem bcj_word_class (e : Bool) (pc v : BitVec 32) (h4 : pc &&& 3#32 = 0#32) :
+    getB (armWord e pc v) 3 = getB v 3
+    ∧ (((arm64Word e pc v) >>> 26 = 0x25#32) = (v >>> 26 = 0x25#32))
+    ∧ ((getB (powerpcWord e pc v) 0 >>> 2 = 0x12#32 ∧ getB (powerpcWord e pc v) 3 &&& 3#32 = 1#32)
+        = (getB v 0 >>> 2 = 0x12#32 ∧ getB v 3 &&& 3#32 = 1#32)) :=
+  ⟨arm_class e pc v, arm64_class_bl e pc v, powerpc_class e pc v h4⟩
+
+/-- ARM64 ADRP: converted iff in the ±512 MiB window, and the converted instruction is again an ADRP inside the window. -/
+theorem arm64_adrp_gate_preserved (e : Bool) (pc v : BitVec 32) :
+    let src := fun (i : BitVec 32) => ((i >>> 29) &&& 3#32) ||| ((i >>> 3) &&& 0x001FFFFC#32)
+    let w := arm64Word e pc v
+    (w &&& 0x9F000000#32 = 0x90000000#32 ∧ (src w + 0x00020000#32) &&& 0x001C0000#32 = 0#32)
+      = (v &&& 0x9F000000#32 = 0x90000000#32 ∧ (src v + 0x00020000#32) &&& 0x001C0000#32 = 0#32) :=
+  arm64_class_adrp e pc v
+
+/-- SPARC: the `call` + sign-bits test is invariant. -/
+theorem sparc_class_preserved (e : Bool) (pc v : BitVec 32) :
+    let c := fun (x : BitVec 32) => (getB x 0 = 0x40#32 ∧ getB x 1 &&& 0xC0#32 = 0x00#32) ∨ (getB x 0 = 0x7F#32 ∧ getB x 1 &&& 0xC0#32 = 0xC0#32)
+    c (sparcWord e pc v) = c v :=
+  sparc_class e pc v
+
+/-- non-vacuity: an ARM `bl`, an ARM64 `bl` and an in-range ADRP are really changed, an out-of-range ADRP is not -/
+example : armWord true 0x1000#32 0xEB000010#32 = 0xEB000412#32 := by decide
+example : arm64Word true 0x1000#32 0x94000001#32 = 0x94000401#32 := by decide
+example : arm64Word true 0x5000#32 0x90000001#32 ≠ 0x90000001#32 := by decide
+example : arm64Word true 0x5000#32 0x90800001#32 = 0x90800001#32 := by decide
+
+/-! ## Fixed-width filters: whole buffers -/
+
+/-- What "decode undoes encode on the whole buffer" means for a `*_code` function pair. -/
+def RoundTrip (code : Bool → BitVec 32 → List UInt8 → List UInt8 × Nat) (align : Nat) : Prop :=
+  ∀ (off : BitVec 32) (x : List UInt8), off.toNat % align = 0 →
+    (code false off (code true off x).1).1 = x ∧ (code true off x).1.length = x.length
+      ∧ (code false off (code true off x).1).2 = (code true off x).2
+
+theorem arm_roundtrip : RoundTrip armCode 4 := by
+  intro off x h
+  have h4 : off &&& 3#32 = 0#32 := and_of_mod (k := 2) off (by omega) h
+  exact blockCode_roundtrip3 (w := 4) (f := armWord true) (g := armWord false) (P := fun pc => pc &&& 3#32 = 0#32) al4_add4 arm_dec_enc off x h4
+
+theorem arm64_roundtrip : RoundTrip arm64Code 4 := by
+  intro off x _
+  exact blockCode_roundtrip3 (w := 4) (f := arm64Word true) (g := arm64Word false) (P := fun _ => True) (fun _ _ => trivial)
+    (fun pc v _ => arm64_dec_enc pc v) off x trivial
+
+theorem powerpc_roundtrip : RoundTrip powerpcCode 4 := by
+  intro off x h
+  have h4 : off &&& 3#32 = 0#32 := and_of_mod (k := 2) off (by omega) h
+  exact blockCode_roundtrip3 (w := 4) (f := powerpcWord true) (g := powerpcWord false) (P := fun pc => pc &&& 3#32 = 0#32) al4_add4 powerpc_dec_enc off x h4
+
+theorem sparc_roundtrip : RoundTrip sparcCode 4 := by
+  intro off x h
+  have h4 : off &&& 3#32 = 0#32 := and_of_mod (k := 2) off (by omega) h
+  exact blockCode_roundtrip3 (w := 4) (f := sparcWord true) (g := sparcWord false) (P := fun pc => pc &&& 3#32 = 0#32) al4_add4 sparc_dec_enc off x h4
+
+/-- IA-64 per-bundle inverse: all 128-bit bundles, all templates, 16-byte aligned pc. -/
+theorem ia64_bundle_inverse (pc : BitVec 32) (v : BitVec 128) (h : pc &&& 15#32 = 0#32) :
+    ia64Bundle false pc (ia64Bundle true pc v) = v ∧ ia64Bundle true pc (ia64Bundle false pc v) = v := by
+  simp only [ia64Bundle]
+  rw [ia64_template true _ (ia64_mask_lt _) pc v, ia64_template false _ (ia64_mask_lt _) pc v]
+  exact ⟨ia64_dec_enc _ (ia64_mask_lt _) pc v h, ia64_enc_dec _ (ia64_mask_lt _) pc v h⟩
+
+theorem ia64_roundtrip : RoundTrip ia64Code 16 := by
+  intro off x h
+  have h16 : off &&& 15#32 = 0#32 := and_of_mod (k := 4) off (by omega) h
+  exact blockCode_roundtrip3 (w := 16) (f := ia64Bundle true) (g := ia64Bundle false) (P := fun pc => pc &&& 15#32 = 0#32) al16_add16
+    (fun pc v hp => (ia64_bundle_inverse pc v hp).1) off x h16
+
+theorem armthumb_roundtrip : RoundTrip armthumbCode 2 := by
+  intro off x h
+  have h2 : off &&& 1#32 = 0#32 := and_of_mod (k := 1) off (by omega) h
+  have := thumbGo_roundtrip x.length x off (Nat.le_refl _) h2
+  simp only [armthumbCode]
+  rw [this]
+  exact ⟨rfl, thumbGo_length true x.length x off (Nat.le_refl _), rfl⟩
+
+/-- The six filters with a fixed instruction grid: decode undoes encode on every buffer at every permitted start offset;
+    the length never changes; both directions report the same processed count. -/
+theorem bcj_fixed_roundtrip :
+    RoundTrip armCode 4 ∧ RoundTrip armthumbCode 2 ∧ RoundTrip arm64Code 4 ∧ RoundTrip powerpcCode 4 ∧ RoundTrip sparcCode 4
+      ∧ RoundTrip ia64Code 16 :=
+  ⟨arm_roundtrip, armthumb_roundtrip, arm64_roundtrip, powerpc_roundtrip, sparc_roundtrip, ia64_roundtrip⟩
+
+/-- processed = size rounded down to the block size (ARM, ARM64, PowerPC, SPARC: 4; IA-64: 16). -/
+theorem bcj_fixed_processed (e : Bool) (off : BitVec 32) (x : List UInt8) :
+    (armCode e off x).2 = x.length - x.length % 4 ∧ (arm64Code e off x).2 = x.length - x.length % 4
+    ∧ (powerpcCode e off x).2 = x.length - x.length % 4 ∧ (sparcCode e off x).2 = x.length - x.length % 4
+    ∧ (ia64Code e off x).2 = x.length - x.length % 16 :=
+  ⟨blockCode_processed (w := 4) _ _ _, blockCode_processed (w := 4) _ _ _, blockCode_processed (w := 4) _ _ _,
+   blockCode_processed (w := 4) _ _ _, blockCode_processed (w := 16) _ _ _⟩
+
+/-- non-vacuity: a buffer with a BL at offset 4 and a 3-byte tail; start offset near 2^32 (wraps inside the buffer) -/
+example : armCode true 0xFFFFFFFC#32 [1, 2, 3, 4, 0x10, 0, 0, 0xEB, 9, 9, 9] = ([1, 2, 3, 4, 0x12, 0, 0, 0xEB, 9, 9, 9], 8) := by
+  decide +kernel
+example : armthumbCode true 0#32 [0, 0xF0, 0, 0xF8, 1] = ([0, 0xF0, 2, 0xF8, 1], 4) := by decide +kernel
+
+/-! ## Chunk stability (prefix-stability contract used by simple_coder.c) -/
+
+/-- One call on `a ++ b` equals: a call on `a` (which leaves a tail unprocessed), then a call at `now_pos + processed` on
+    (that tail) ++ `b`. The processed parts concatenate and the counts add up. -/
+def ChunkStable (code : BitVec 32 → List UInt8 → List UInt8 × Nat) : Prop :=
+  ∀ (off : BitVec 32) (a b : List UInt8),
+    code off (a ++ b) =
+      ((code off a).1.take (code off a).2 ++ (code (off + BitVec.ofNat 32 (code off a).2) ((code off a).1.drop (code off a).2 ++ b)).1,
+       (code off a).2 + (code (off + BitVec.ofNat 32 (code off a).2) ((code off a).1.drop (code off a).2 ++ b)).2)
+
+theorem bcj_chunk_stable (e : Bool) :
+    ChunkStable (armCode e) ∧ ChunkStable (armthumbCode e) ∧ ChunkStable (arm64Code e) ∧ ChunkStable (powerpcCode e)
+      ∧ ChunkStable (sparcCode e) ∧ ChunkStable (ia64Code e) :=
+  ⟨fun off a b => blockCode_chunk (w := 4) (by omega) (armWord e) off a b,
+   fun off a b => thumbGo_chunk e a.length a b off (Nat.le_refl _),
+   fun off a b => blockCode_chunk (w := 4) (by omega) (arm64Word e) off a b,
+   fun off a b => blockCode_chunk (w := 4) (by omega) (powerpcWord e) off a b,
+   fun off a b => blockCode_chunk (w := 4) (by omega) (sparcWord e) off a b,
+   fun off a b => blockCode_chunk (w := 16) (by omega) (ia64Bundle e) off a b⟩
+
 end XzVerif.C15
